@@ -46,23 +46,38 @@ impl VEnv {
 /// few thousand ticks per instant at most (a window's worth of segments).
 pub const SPIN_LIMIT: u64 = 400_000;
 thread_local! {
-    static SPIN: std::cell::Cell<(Option<tokio::time::Instant>, u64, bool)> = const { std::cell::Cell::new((None, 0, false)) };
+    /// (instant of the last tick, ticks at that instant, tripped, armed). Armed only while a duo / sock
+    /// execution runs on this thread: the solo engine re-uses one paused runtime for thousands of
+    /// executions whose clock legitimately never moves.
+    static SPIN: std::cell::Cell<(Option<tokio::time::Instant>, u64, bool, bool)> = const { std::cell::Cell::new((None, 0, false, false)) };
 }
+/// Start of an execution: counter cleared and armed.
 pub fn spin_reset() {
-    SPIN.with(|c| c.set((None, 0, false)));
+    SPIN.with(|c| c.set((None, 0, false, true)));
+}
+/// End of an execution: disarmed (the tripped flag stays readable).
+pub fn spin_disarm() {
+    SPIN.with(|c| {
+        let (a, b, t, _) = c.get();
+        c.set((a, b, t, false));
+    });
 }
 pub fn spin_tripped() -> bool {
     SPIN.with(|c| c.get().2)
 }
 pub fn spin_tick() {
+    let armed = SPIN.with(|c| c.get().3);
+    if !armed {
+        return;
+    }
     let now = tokio::time::Instant::now();
     let trip = SPIN.with(|c| {
-        let (last, n, tripped) = c.get();
+        let (last, n, tripped, armed) = c.get();
         if last == Some(now) {
-            c.set((last, n + 1, tripped || n + 1 >= SPIN_LIMIT));
+            c.set((last, n + 1, tripped || n + 1 >= SPIN_LIMIT, armed));
             !tripped && n + 1 >= SPIN_LIMIT
         } else {
-            c.set((Some(now), 0, tripped));
+            c.set((Some(now), 0, tripped, armed));
             false
         }
     });
